@@ -42,6 +42,8 @@ CHECKS = {
          "Crash-point search: the context is dropped after a random prefix of every generated history, then all streams are opened and new operations started; oracle: no task left pending and un-woken, ContextExited for everything not completed before the drop, streams yield what they had and end."),
  "C15": ("exploration", "3.C15", "seeded deterministic simulation: cancellation (drop of operation futures / streams) at random points with late acknowledgements still delivered; survivors judged by the C05/C07 oracles; quota probe",
          "Exploration of cancellation points over concurrent workloads: run() must stay pending, surviving operations and streams must satisfy the C05/C07 oracles, and after the late acknowledgements exactly the broker-view number of free Receive Maximum slots is available."),
+ "C17": ("fault_enumeration", "3.C17", "deterministic simulation with crash-point enumeration: connection cut after every prefix of seeded QoS 1/2 histories (systematic) and at random points, simulated clock for session expiry, reconnect through the guarded verif_mark_disconnected hook; model of the outbound session vs the first bytes on the new connection",
+         "Crash-point enumeration: for seeded base histories the connection is cut (EOF / read error at a boundary or inside an acknowledgement; secondary: write error) after every prefix, with session expiry in {absent, 0, finite, never} from CONNECT and/or CONNACK and offline time well before / well after the expiry on the simulated clock; then reconnect. Oracle: a reference model of unacknowledged PUBLISH / PUBREL packets; not expired => exactly these are re-sent first, in original order, same identifier and content, DUP=1, nothing acknowledged, and the original futures complete on the new connection's acknowledgements; expired => nothing re-sent and abandoned futures fail."),
 }
 
 def entry(pid, v):
@@ -57,6 +59,12 @@ def entry(pid, v):
         "level_note": TRUST,
         "technique": technique,
     }
+
+def fixups(m):
+    for c in m["checks"]:
+        if c["property_id"] == "C11":
+            c["replay_cmd_template"] = "/verif/sim/target/release/posim replay {path}   (for *.schedule files: /verif/threads/target/release/posim-threads replay {path})"
+    return m
 
 manifest = {
     "version": 1,
@@ -78,5 +86,5 @@ manifest = {
     "notes": "All checks: seed from VERIF_SEED (default 1); exit 2 = harness error. Non-additive hook lines: the `use` of the id-counter atomics in handle.rs/context.rs and the elapsed-time expression in session_expired are cfg-switched.",
     "not_applicable": [],
 }
-json.dump(manifest, open("/verif/MANIFEST.json", "w"), indent=1)
+json.dump(fixups(manifest), open("/verif/MANIFEST.json", "w"), indent=1)
 print("checks:", ", ".join(sorted(CHECKS)))
